@@ -65,9 +65,9 @@ def case_gen(draw):
     preds = []
     for i, rep in segs:
         preds += [i] * rep
-    parent = draw(st.sampled_from(['none', 'none', 'group_by', 'group_by', 'roll', 'split']))
+    parent = draw(st.sampled_from(['none', 'none', 'group_by', 'group_by', 'roll', 'split', 'gb+roll']))
     gk = draw(st.lists(st.integers(0, 2), min_size=len(preds), max_size=len(preds)))
-    pspec = [draw(st.integers(1, 5)), draw(st.integers(1, 5))] if parent == 'roll' else None
+    pspec = [draw(st.integers(1, 5)), draw(st.integers(1, 5))] if parent == 'roll' else ([draw(st.integers(2, 4)), draw(st.integers(1, 2))] if parent == 'gb+roll' else None)
     which = draw(st.sampled_from(['to_list', 'to_list', 'p']))
     p = draw(gen.chain('int', INNER, 1, min_len=1)) if which == 'p' else [['to_list']]
     # a key-stateful operator BEHIND split, inside the same parent key: it must receive the last segment's result
@@ -93,6 +93,8 @@ def check(case):
         ops = [rs.ops.group_by(lambda i: i[2], inner)]
     elif parent == 'roll':
         ops = [rs.data.roll(case['pspec'][0], case['pspec'][1], inner)]
+    elif parent == 'gb+roll':      # interleaved groups over (mostly overlapping) windows: parent key indexes are created out of order
+        ops = [rs.ops.group_by(lambda i: i[2], [rs.data.roll(case['pspec'][0], case['pspec'][1], inner)])]
     else:
         ops = [rs.data.split(lambda i: i[2], inner)]
 
@@ -109,6 +111,8 @@ def check(case):
         top = M.Chain(mctx, [M.GroupBy(lambda i: i[2], split_chain)])
     elif parent == 'roll':
         top = M.Chain(mctx, [M.Roll(mctx, case['pspec'][0], case['pspec'][1], split_chain)])
+    elif parent == 'gb+roll':
+        top = M.Chain(mctx, [M.GroupBy(lambda i: i[2], lambda: M.Chain(mctx, [M.Roll(mctx, case['pspec'][0], case['pspec'][1], split_chain)]))])
     else:
         top = M.Chain(mctx, [M.Split(lambda i: i[2], split_chain)])
     try:
